@@ -309,11 +309,16 @@ func c11Joint(c *fw.Ctx) {
 	drive(c, "joint-login/group-names", -1, func(x *explore.Exec, owned bool) {
 		name := names[x.Choose("listed-group", len(names))]
 		member := x.Choose("user-is-in", 2) == 0 // the listed group | another group
+		// the upstream may list further groups the user is not in, sorting before or after the one in question
+		more := [][]string{nil, {"0-admins"}, {"zz-staff"}, {"0-admins", "zz-staff"}}[x.Choose("also-listed", 4)]
 		if !owned {
 			return
 		}
 		setNow(0)
 		doc := "- service: svca\n  default:\n    from: " + hostA + "\n    to: {{backend:a}}\n    options:\n      allowed_groups:\n        - '" + name + "'\n"
+		for _, g := range more {
+			doc += "        - '" + g + "'\n"
+		}
 		w := newC19WorldYAML(doc)
 		defer w.close()
 		w.userGroups = []string{"everyone", name}
@@ -322,8 +327,8 @@ func c11Joint(c *fw.Ctx) {
 		}
 		_, _, err := w.login(func() harness.AuthAnswer { return ans(200, "{}") })
 		admitted := err == nil
-		c.Res.Outcome(fmt.Sprintf("joint|%s|member=%v|admitted=%v", name, member, admitted))
-		d := map[string]interface{}{"allowed_groups": []string{name}, "identity_provider_reports_groups": w.userGroups, "login": truncate(fmt.Sprint(err), 200)}
+		c.Res.Outcome(fmt.Sprintf("joint|%s|%v|member=%v|admitted=%v", name, more, member, admitted))
+		d := map[string]interface{}{"allowed_groups": append([]string{name}, more...), "identity_provider_reports_groups": w.userGroups, "login": truncate(fmt.Sprint(err), 200)}
 		switch {
 		case member && !admitted:
 			c.Res.Violate(fw.Violation{Property: "C11", Key: "C11/joint-login/member-of-the-listed-group-refused/" + name, Scenario: "joint-login/group-names", Choices: x.Choices(), Detail: d,
